@@ -230,6 +230,39 @@ func (w *World) verifyFunc(key string) (fc *FuncCtx) {
 	}
 	for _, want := range strings.Fields(fc.contract.Opts["countrecvs"]) {
 		st.ghost["recvs_"+want] = fc.fresh("recvs_"+want, tInt)
+		// lastrecv_<chan> for a channel held in a parameter or local variable
+		ast.Inspect(decl, func(n ast.Node) bool {
+			if ue, ok := n.(*ast.UnaryExpr); ok && ue.Op == token.ARROW {
+				if id, ok := unparen(ue.X).(*ast.Ident); ok && id.Name == want {
+					if ct, ok := fc.typeOf(ue.X).Underlying().(*types.Chan); ok {
+						if _, have := st.ghost["lastrecv_"+want]; !have {
+							st.ghost["lastrecv_"+want] = fc.fresh("lastrecv_"+want, ct.Elem())
+						}
+					}
+				}
+			}
+			return true
+		})
+	}
+	for _, want := range strings.Fields(fc.contract.Opts["lastargs"]) {
+		ast.Inspect(decl, func(n ast.Node) bool {
+			call, ok := n.(*ast.CallExpr)
+			if !ok {
+				return true
+			}
+			fn, _ := fc.calleeOf(call)
+			if fn == nil || fn.Name() != want {
+				return true
+			}
+			sg := fn.Type().(*types.Signature)
+			for i := 0; i < sg.Params().Len(); i++ {
+				name := want + "_arg" + strconv.Itoa(i)
+				if _, have := st.ghost[name]; !have {
+					st.ghost[name] = fc.fresh(name, sg.Params().At(i).Type())
+				}
+			}
+			return true
+		})
 	}
 	for _, want := range strings.Fields(fc.contract.Opts["lasterr"]) {
 		st.ghost[want+"_err"] = fc.reg().Zero(types.Universe.Lookup("error").Type())
